@@ -93,6 +93,7 @@ def main(argv):
             except RuntimeError as e:
                 rows.append((m['name'], m['property'], 'STALE', str(e)[:200]))
                 bad += 1
+                print('%-44s %-4s %-28s %s' % rows[-1], flush=True)
                 continue
             tier = tier_override or m.get('tier', 'quick')
             rc, ev, obs = chk.decide(m['property'], tier, repo=d, write_evidence=False, quiet=True, tag='mut-' + tag, search=False)
@@ -114,6 +115,14 @@ def main(argv):
             rows.append((m['name'], m['property'], verdict, '%s rc=%d %.0fs %s' % (tier, rc, time.time() - t0, ', '.join(refuted[:4]) or '; '.join(und)[:200])))
         finally:
             shutil.rmtree(d, ignore_errors=True)
+            # work copies of this entry (Kani overlay crate, generated Verus text, result files)
+            for pre in ('kani-mut-' + tag, 'verus-mut-' + tag):
+                shutil.rmtree(os.path.join(WORKROOT, pre), ignore_errors=True)
+            for ext in ('.json', '.log'):
+                try:
+                    os.remove(os.path.join(WORKROOT, 'kani-mut-' + tag + ext))
+                except OSError:
+                    pass
         print('%-44s %-4s %-28s %s' % rows[-1], flush=True)
     print('selftest: %d entries, %d not as expected' % (len(rows), bad))
     return 1 if bad else 0
